@@ -45,11 +45,9 @@ def trace_inputs(trace, entry):
         if (fn or '').startswith('__CPROVER'):
             continue
         lhs = s.get('lhs', '')
-        if fn not in (None, entry) and not (fn or '').startswith(('havoc', 'vx_set', 'nondet')):
-            if not lhs.startswith('__'):
-                break
+        if fn not in (None, entry) and not (fn or '').startswith(('havoc', 'vx_set', 'nondet', 'setup')):
             continue
-        if lhs.endswith('_wrapper') or lhs == '__write_set_to_check':
+        if lhs.endswith('_wrapper'):
             break
         if lhs.startswith('__') or lhs.startswith('return_value_') or '$' in lhs:
             continue
@@ -119,12 +117,17 @@ def handle_failure(prop, mod, h, res, o, ctext, info, idx):
     lines = ['# replay file written by /verif/bin/check', 'property=' + prop, 'unit=' + mod.NAME, 'harness=' + h.name,
              'obligation=' + o['name'], 'class=' + o['class'], 'where=%s:%s' % (o['file'], o['line']),
              'description=' + o['desc'].replace('\n', ' ')]
-    tr = units.run_harness(mod, h, ctext, info, trace_prop=o['name'])
+    # counterexample minimisation (DESIGN 3.5 step 2): first with -DVX_SMALL (small sizes), then unrestricted
     inputs = {}
-    if tr.get('status') == 'ok':
-        for oo in tr['obligations']:
-            if oo['name'] == o['name'] and oo.get('trace'):
-                inputs = trace_inputs(oo['trace'], h.entry)
+    for extra in (('VX_SMALL',), ()):
+        tr = units.run_harness(mod, h, ctext, info, trace_prop=o['name'], extra_defines=extra)
+        if tr.get('status') == 'ok':
+            for oo in tr['obligations']:
+                if oo['name'] == o['name'] and oo.get('trace') and oo['status'] != 'SUCCESS':
+                    inputs = trace_inputs(oo['trace'], h.entry)
+        if inputs:
+            lines.append('# counterexample obtained %s' % ('under -DVX_SMALL (minimised)' if extra else 'without size restriction'))
+            break
     lines.append('# counterexample inputs from the verifier (%d values)' % len(inputs))
     for k, v in inputs.items():
         lines.append('in %s=%s' % (k, v))
